@@ -554,16 +554,7 @@ class SpsProxy:
                 return SymSparse(D, fmt, M)
         return real(arg1, shape=shape, dtype=dtype, copy=copy)
 
-    def csr_matrix(self, arg1, shape=None, dtype=None, copy=False):
-        return self._cs("csr", _sps.csr_matrix, arg1, shape, dtype, copy)
-
-    def csc_matrix(self, arg1, shape=None, dtype=None, copy=False):
-        return self._cs("csc", _sps.csc_matrix, arg1, shape, dtype, copy)
-
-    def coo_matrix(self, arg1, shape=None, dtype=None, copy=False):
-        return self._cs("coo", _sps.coo_matrix, arg1, shape, dtype, copy)
-
-    def dia_matrix(self, arg1, shape=None, dtype=None, copy=False):
+    def _dia_matrix(self, arg1, shape=None, dtype=None, copy=False):
         if Session.active and isinstance(arg1, tuple) and is_objarr(_np.asarray(arg1[0]) if not isinstance(arg1[0], _np.ndarray) else arg1[0]) and has_sym(_np.asarray(arg1[0], dtype=object)):
             data, offsets = arg1
             data = _np.asarray(data, dtype=object)
@@ -661,3 +652,23 @@ class SpsProxy:
 
 
 spsproxy = SpsProxy()
+
+
+class _CtorMeta(type):
+    """Callable like the proxy constructor, usable in isinstance like the real class."""
+
+    def __instancecheck__(cls, obj):
+        return isinstance(obj, cls._real)
+
+    def __subclasscheck__(cls, sub):
+        return issubclass(sub, cls._real)
+
+    def __call__(cls, arg1, shape=None, dtype=None, copy=False):
+        if cls._fmt == "dia":
+            return spsproxy._dia_matrix(arg1, shape=shape, dtype=dtype, copy=copy)
+        return spsproxy._cs(cls._fmt, cls._real, arg1, shape, dtype, copy)
+
+
+for _fmt, _real in (("csr", _sps.csr_matrix), ("csc", _sps.csc_matrix), ("coo", _sps.coo_matrix),
+                    ("dia", _sps.dia_matrix)):
+    setattr(SpsProxy, _real.__name__, _CtorMeta(_real.__name__, (), {"_real": _real, "_fmt": _fmt}))
